@@ -97,8 +97,14 @@ def gen_setup(rng, sid, seq=False, model_scope=False):
     ng = rng.randint(1, 2)
     for g in range(1, ng + 1):
         owner = rng.choice(sc.users)
-        kind = "grp" if (model_scope or rng.random() < 0.8) else "chn"
-        sc.topics[g] = dict(kind=kind, owner=owner, members=list(sc.users) if kind == "grp" else [owner])
+        kind = "grp" if rng.random() < (0.6 if model_scope else 0.8) else "chn"
+        if kind == "grp":
+            members = list(sc.users)
+        elif model_scope:
+            members = [owner] + [u for u in sc.users if u != owner and rng.random() < 0.4]
+        else:
+            members = [owner]
+        sc.topics[g] = dict(kind=kind, owner=owner, members=members)
     if not model_scope:
         for u in sc.users:
             sc.topics[10 + u] = dict(kind="me", owner=u)
@@ -410,7 +416,20 @@ def gen_seq_scn(rng, sid):
             sc.bursts.append(["i unload %d" % rng.choice(list(sc.topics))])
             continue
         si = rng.choice(list(sc.sessions))
-        sc.bursts.append([gen_request(rng, sc, si, "r%d" % n, model_scope=True)])
+        l = gen_request(rng, sc, si, "r%d" % n, model_scope=True)
+        w = l.split()
+        if w[3] in ("sub", "leave"):
+            # the name form.  {sub}: the name the user normally writes (whether thisUserSub accepts the OTHER name depends
+            # on the per-user records, which the model leaves out: a group subscriber who writes chnXXX is told 303;
+            # the burst scenarios exercise that); {leave}: either name; a channel name for a plain group now and then
+            k = int(w[4])
+            nat = natural_form(sc, si, k)
+            if sc.topics[k]["kind"] == "chn":
+                form = nat if (w[3] == "sub" or rng.random() < 0.5) else ("grp" if nat == "chn" else "chn")
+            else:
+                form = "chn" if rng.random() < 0.12 else "grp"
+            l = " ".join(w[:5] + [w[5] if len(w) > 5 else "0", "as=" + form])
+        sc.bursts.append([l])
     return sc
 
 
@@ -896,13 +915,17 @@ def model_lines(sc):
     for si, s in sorted(sc.sessions.items()):
         out.append("sess %d %d" % (si, s["user"]))
     for k, t in sorted(sc.topics.items()):
-        out.append("topic %d %d" % (k, t["owner"]))
+        out.append("topic %d %d %d" % (k, t["owner"], 1 if t["kind"] == "chn" else 0))
     for b in sc.bursts:
         w = b[0].split()
         if w[0] == "i":
             out.append("op unload %s" % w[2])
         else:
-            out.append("op %s %s %s %s %s" % (w[3], w[1], w[2][1:], w[4] if len(w) > 4 else "0", w[5] if len(w) > 5 else "0"))
+            q = requests_of(b)[0]
+            form = "grp"
+            if q["k"] is not None and q["kind"] in ("sub", "leave"):
+                form = q.get("as") or natural_form(sc, q["si"], q["k"])     # the name the driver writes
+            out.append("op %s %s %s %s %s %s" % (w[3], w[1], w[2][1:], w[4] if len(w) > 4 else "0", q["arg"] or "0", form))
     out.append("end")
     return out
 
@@ -916,8 +939,9 @@ def impl_projection(sc, r):
         tat = sorted((k, si) for k, t in b["topics"].items() if t["loaded"] for si in t["sessions"])
         top = sorted((k, int(t["loaded"]), int(t["stored"])) for k, t in b["topics"].items())
         term = sorted(si for si, st in b["sess"].items() if st["term"])
+        cat = sorted((k, si) for k, t in b["topics"].items() if t["loaded"] for si in t["chansess"])
         res.append({"replies": [list(x) for x in fr], "subs": [list(x) for x in att], "sessions": [list(x) for x in tat],
-                    "topics": [list(x) for x in top], "terminated": term})
+                    "chansess": [list(x) for x in cat], "topics": [list(x) for x in top], "terminated": term})
     return res
 
 
@@ -932,13 +956,15 @@ def parse_model(lines):
             cur = []
             res[w[1]] = cur
         elif w[0] == "op":
-            cur.append({"replies": [], "subs": [], "sessions": [], "topics": [], "terminated": []})
+            cur.append({"replies": [], "subs": [], "sessions": [], "chansess": [], "topics": [], "terminated": []})
         elif w[0] == "f":
             cur[-1]["replies"].append([int(w[1]), w[2], int(w[3]), w[4] if len(w) > 4 else ""])
         elif w[0] == "sub":
             cur[-1]["subs"].append([int(w[1]), int(w[2])])
         elif w[0] == "att":
             cur[-1]["sessions"].append([int(w[1]), int(w[2])])
+        elif w[0] == "catt":
+            cur[-1]["chansess"].append([int(w[1]), int(w[2])])
         elif w[0] == "topic":
             cur[-1]["topics"].append([int(w[1]), int(w[2]), int(w[3])])
         elif w[0] == "term":
@@ -1030,7 +1056,9 @@ def run(ctx):
                 if k >= len(ip) or k >= len(mp) or ip[k] != mp[k]:
                     mism.append((sc, k, {"impl": ip[k] if k < len(ip) else None, "model": mp[k] if k < len(mp) else None}))
                     break
-        if mism and not fails:
+        known = set(f["key"] for f in ctx.load_findings() if f["property"] == ctx.pid)
+        if mism and not [law for law in fails if law not in known]:
+            # (a law failure that is not a known finding is the better report: it comes with its own replay)
             sc, k, d = min(mism, key=lambda x: x[1])
             small = Scn.from_replay(sc.id, json.loads(json.dumps(sc.replay())))
             small.bursts = small.bursts[:k + 1]
